@@ -38,13 +38,19 @@ RULE = (
     "(time_until_available only / public attribute reads) issued in every state: fresh, full after an idle period, "
     "just refilled, exhausted; composite segments 'query while full -> idle gap -> ns-adjacent burst larger than the allowance'. Non-trivial (policy families): >= 1 arrival exactly on a "
     "window / refill boundary (measured from the case times) and >= 1 denial (measured from try_acquire). "
-    "Simulation families: <= 60 tagged requests injected pre-run or by a feeder entity into RateLimitedEntity (every "
+    "All families run at absolute time origins 0, 1 day, 1e9 s, 1.7e9 s, 1.727e9 s and 4e9 s (Simulation.start_time set "
+    "accordingly), with arrivals up to 300 ns around period boundaries, all oracles on integer nanoseconds. "
+    "Simulation families: sender-side Event.cancel() of requests strictly after their arrival (40 % of rle / inductor cases); "
+    "<= 60 tagged requests injected pre-run or by a feeder entity into RateLimitedEntity (every "
     "policy, queue capacity 0-5), Inductor, two DistributedRateLimiter instances over one KVStore with latency > 0, "
     "NullRateLimiter. Non-trivial (simulation families): >= 1 request queued or dropped (dist: >= 1 forwarded and >= 1 "
     "rejected; null: >= 2 requests). Distinct by hash of the case."
 )
 ASSUMPTIONS = [
-    "arrival instants are nondecreasing and >= 0 (policies are not asked about the past)",
+    "arrival instants are nondecreasing and >= 0 (policies are not asked about the past); absolute times up to ~4e9 s "
+    "(time origins 0, 1 day, 1e9 s, 1.7e9 s, 1.727e9 s, 4e9 s; Simulation.start_time set accordingly)",
+    "sender-side Event.cancel() is only issued strictly after the request's arrival instant; on HEAD that has no effect "
+    "on a delivered request, which is therefore still owed exactly one of forwarded / queued / dropped",
     "parameters are positive: rates in [0.3, 1e4]/s, capacity >= 1 (initial_tokens may exceed capacity: the bucket must still never hold more than capacity), windows >= 1 ms",
     "fixed-window alignment is to multiples of the window from the epoch; boundary nanoseconds (k*W +- 1 ns) are excluded "
     "from the per-aligned-window count (they are covered by the 2N-in-any-window-length clause)",
@@ -56,7 +62,7 @@ ASSUMPTIONS = [
     "(Inductor: (4 * queue_capacity + 8) * largest inter-arrival gap + 1 s); kept alive by a non-daemon sentinel event, no end_time",
     "DistributedRateLimiter is checked for exactly-once and order only (no global bound is stated for it)",
 ]
-MUST_OBSERVE = ["acquires_checked", "tua_probes", "requests_tracked"]
+MUST_OBSERVE = ["acquires_checked", "tua_probes", "requests_tracked", "cancels_on_queued_requests"]
 
 NS = 1_000_000_000
 
@@ -131,6 +137,11 @@ WINDOWS = [0.1, 0.2, 0.3, 0.7, 0.05, 0.25, 1.0, 0.29, 0.001, 0.6, 1.1, 1.001, 1.
 RATES = [0.5, 1.0, 2.0, 3.0, 7.0, 10.0, 100.0, 1000.0, 10000.0, 0.3, 3.3]
 
 
+# Absolute time origins: the epoch, one day, and Unix-epoch style start times where a double's grid is
+# coarser than 1 ns (float(ns) is quantised to 128-512 ns between 1e9 s and 4e9 s).
+BASES_NS = [0, 0, 0, 0, 86_400 * NS, 10**9 * NS, 1_700_000_000 * NS, 1_727_000_000 * NS + 123_456_789, 4 * 10**9 * NS]
+
+
 def gen_times(
     rng: random.Random,
     P: int,
@@ -151,7 +162,7 @@ def gen_times(
     """
     t = anchor
     out: list[int] = []
-    segs = ["boundary", "boundary", "near", "dense", "burst", "sparse", "sub", "idle"]
+    segs = ["boundary", "boundary", "near", "near-wide", "dense", "burst", "sparse", "sub", "idle"]
     if wf is not None:
         segs += ["floatmult", "truncmult"]
     if marks is not None:
@@ -183,9 +194,12 @@ def gen_times(
                 t2 = anchor + (k + rng.choice([0, 1, 1, 1, 2, 3])) * P
             elif seg == "near":
                 t2 = anchor + (k + rng.choice([0, 1, 1, 2])) * P + rng.choice([-2, -1, -1, 0, 1, 1, 2])
+            elif seg == "near-wide":
+                # up to 300 ns around a boundary: the float grid at ~1e9 s is 128-512 ns wide
+                t2 = anchor + (k + rng.choice([0, 1, 1, 2])) * P + rng.randrange(-300, 301)
             elif seg == "floatmult":
                 kk = k + rng.choice([0, 1, 1, 2, 3])
-                t2 = int(kk * wf * NS)  # what Instant.from_seconds(k * w) gives a user
+                t2 = int((anchor / NS + kk * wf) * NS)  # what Instant.from_seconds(t0 + k * w) gives a user
             elif seg == "truncmult":
                 # multiples of the *truncated* period int(w*1e9): where an implementation that converts the
                 # window with Duration.from_seconds would put its boundaries (drifts 1 ns per window for 1.001 s)
@@ -257,6 +271,10 @@ def gen_policy(kind: str):
         P = period_ns(spec)
         n = rng.choice([5, 12, 30, 60, 120, 200])
         anchor = rng.choice([0, 0, 0, P, 7 * P, rng.randrange(0, 3 * P + 1)])
+        base = rng.choice(BASES_NS)
+        if base:
+            # fixed windows are aligned to the epoch: keep the anchor on an aligned boundary (or off it, as drawn)
+            anchor += -(-base // P) * P if kind == "fixed" else base
         if kind == "token":
             fill, burst = int(params["capacity"]) + 1, int(params["capacity"])
         elif kind == "leaky":
@@ -728,14 +746,34 @@ def _harness_classes():
         def __init__(self, name):
             super().__init__(name)
             self.plan = []  # (t_ns, target, rid)
+            self.registry = None  # rid -> request Event, shared with the Canceller
 
         def handle_event(self, event):
-            return [
-                Event(time=Instant(t), event_type="req", target=tgt, context={"metadata": {"rid": rid}})
-                for t, tgt, rid in self.plan
-            ]
+            out = []
+            for t, tgt, rid in self.plan:
+                ev = Event(time=Instant(t), event_type="req", target=tgt, context={"metadata": {"rid": rid}})
+                if self.registry is not None:
+                    self.registry[rid] = ev
+                out.append(ev)
+            return out
 
-    _CLASSES.update(Recorder=Recorder, Feeder=Feeder)
+    class Canceller(Entity):
+        """The sender giving up: calls the public Event.cancel() on a request event it sent earlier."""
+
+        def __init__(self, name, registry):
+            super().__init__(name)
+            self.registry = registry
+            self.done = []  # (clock_ns, rid)
+
+        def handle_event(self, event):
+            rid = event.context["metadata"]["cancel"]
+            ev = self.registry.get(rid)
+            if ev is not None:
+                ev.cancel()
+                self.done.append((self.now.nanoseconds, rid))
+            return []
+
+    _CLASSES.update(Recorder=Recorder, Feeder=Feeder, Canceller=Canceller)
     return _CLASSES
 
 
@@ -783,7 +821,10 @@ def gen_sim(which: str):
         else:
             P = rng.choice([1, 1000, 10**8])
             wf = None
-        times = gen_times(rng, P, wf, n, rng.choice([0, 0, P]))
+        start = rng.choice(BASES_NS)
+        case["start_ns"] = start
+        origin = -(-start // P) * P  # first multiple of the period not before the simulation start
+        times = gen_times(rng, P, wf, n, origin + rng.choice([0, 0, P]))
         if which == "rle" and case["policy"]["kind"] in ("fixed", "sliding") and rng.random() < 0.4:
             # Several slots open at one instant (window rollover / entries expiring together) while >= 2 requests
             # queue, and newcomers land 1-4 ns after that instant.
@@ -792,7 +833,7 @@ def gen_sim(which: str):
             case["policy"]["params"]["n"] = N
             qc = case["queue_capacity"] = rng.choice([2, 3, 4, 5])
             q = rng.randrange(2, qc + 1)
-            base = rng.randrange(0, 4) * P
+            base = origin + rng.randrange(0, 4) * P
             if pk == "fixed":
                 lo = rng.choice([1, P // 10, P // 2])
                 pre = sorted(base + min(P - 2, lo + i * rng.choice([0, 1, 7, max(1, P // 100)])) for i in range(N + q))
@@ -810,6 +851,12 @@ def gen_sim(which: str):
         else:
             case["arrivals"] = times
         case["inject"] = rng.choice(["prerun", "prerun", "feeder"])
+        if which in ("rle", "inductor") and rng.random() < 0.4:
+            # sender-side cancels (Event.cancel() on the request event, e.g. a caller time-out) strictly after
+            # the request was handed to the limiter: some hit requests waiting in its queue
+            k = rng.choice([1, 1, 2, 3, max(1, len(times) // 3)])
+            rids = sorted(rng.sample(range(len(times)), min(k, len(times))))
+            case["cancels"] = [[times[r] + rng.choice([1, 2, 17, max(1, P // 7), max(1, P // 2), P, 2 * P]), r] for r in rids]
         return case
 
     return gen
@@ -897,19 +944,32 @@ def run_sim(case: dict) -> Result:
         ents.append(feeder)
     # No end_time (the engine executes one event beyond it and then drops that event's outputs):
     # a non-daemon sentinel keeps the run alive until the horizon, then it auto-terminates.
-    sim = Simulation(entities=ents)
+    start_ns = case.get("start_ns", 0)
+    registry: dict = {}
+    canceller = H["Canceller"]("canceller", registry)
+    ents.append(canceller)
+    sim = Simulation(entities=ents, start_time=Instant(start_ns))
     sim.schedule(Event(time=Instant(end_ns), event_type="stop", target=stopper))
     if feeder is None:
         for rid, t in enumerate(arrivals):
-            sim.schedule(Event(time=Instant(t), event_type="req", target=lim, context={"metadata": {"rid": rid}}))
+            registry[rid] = Event(time=Instant(t), event_type="req", target=lim, context={"metadata": {"rid": rid}})
+            sim.schedule(registry[rid])
     else:
         feeder.plan = [(t, lim, rid) for rid, t in enumerate(arrivals)]
-        sim.schedule(Event(time=Instant(0), event_type="kick", target=feeder))
+        feeder.registry = registry
+        sim.schedule(Event(time=Instant(start_ns), event_type="kick", target=feeder))
+    # Sender-side cancels, always strictly after the request's own arrival instant: on HEAD cancelling an event
+    # that was already delivered has no effect (the engine looks at the flag only when it pops the event), so the
+    # request is still owed exactly one of forwarded / queued / dropped and the oracles below stay as they are.
+    for t_c, rid in case.get("cancels", []):
+        if 0 <= rid < len(arrivals) and t_c > arrivals[rid]:
+            sim.schedule(Event(time=Instant(t_c), event_type="cancel", target=canceller, context={"metadata": {"cancel": rid}}))
     with EngineProbe(log_deliveries=False, instant_cap=3000, total_cap=300_000) as p:
         status = p.run(sim)
     res.count("events_monitored", p.n_deliveries)
     res.count("requests_tracked", len(arrivals))
     res.count("simulations_run")
+    res.count("sender_cancels", len(canceller.done))
     if status == "spin":
         s = p.spin
         cyc = sorted({f"{a}@{b}" for a, b in s.recent})
@@ -1016,6 +1076,13 @@ def run_sim(case: dict) -> Result:
         if r not in seen:
             res.add("forward-lost", comp, tag, f"rid {r}: forward event emitted but never delivered downstream")
             break
+    first_seen = {}
+    for g in down.got:
+        first_seen.setdefault(g[3], g[0])
+    res.count(
+        "cancels_on_queued_requests",
+        sum(1 for clk, r in canceller.done if disposition.get(r) == "queued" and first_seen.get(r, clk + 1) > clk),
+    )
     still_queued = [r for r, dsp in disposition.items() if dsp == "queued" and r not in seen]
     if hasattr(lim, "queue_depth"):
         if len(still_queued) != lim.queue_depth:
@@ -1132,13 +1199,14 @@ def run_dist(case: dict) -> Result:
     if case["inject"] == "feeder":
         feeder = H["Feeder"]("feeder")
         ents.append(feeder)
-    sim = Simulation(entities=ents)
+    start_ns = case.get("start_ns", 0)
+    sim = Simulation(entities=ents, start_time=Instant(start_ns))
     if feeder is None:
         for rid, (t, i) in enumerate(arrivals):
             sim.schedule(Event(time=Instant(t), event_type="req", target=lims[i], context={"metadata": {"rid": rid}}))
     else:
         feeder.plan = [(t, lims[i], rid) for rid, (t, i) in enumerate(arrivals)]
-        sim.schedule(Event(time=Instant(0), event_type="kick", target=feeder))
+        sim.schedule(Event(time=Instant(start_ns), event_type="kick", target=feeder))
     with EngineProbe(log_deliveries=False, instant_cap=3000, total_cap=300_000) as p:
         status = p.run(sim)
     res.count("events_monitored", p.n_deliveries)
